@@ -18,6 +18,9 @@ const TYPES: &[&str] = &[
     "darling::util::Flag", "Vec<syn::Attribute>", "darling::ast::Data<(), ()>", "syn::Visibility",
     "syn::Type", "syn::Generics", "Option<syn::Expr>", "&'a str", "[u8; 4]", "(u8, T)",
     "std::collections::HashMap<String, U>", "Box<dyn Fn(T) -> U>",
+    // array lengths and other embedded expressions that are more than a literal or a path
+    "[u8; 4 * 2]", "[T; N + 1]", "Option<[u8; { 4 }]>", "[u8; LEN as usize]", "Vec<[T; size_of::<u64>()]>", "[[u8; 2]; (1 + 1)]", "Foo<{ N + 1 }>",
+    "::core::marker::PhantomData<T>", "PhantomData<(T, U)>", "fn(T) -> [U; 3]", "*const T", "&'a mut [T]", "dyn Tr<T> + 'a", "impl Tr<T>", "(T,)", "!", "_", "m!(T)",
 ];
 const FIELD_NAMES: &[&str] = &[
     "a", "b", "c", "lorem", "ipsum", "ident", "attrs", "vis", "ty", "data", "generics", "bounds",
@@ -416,6 +419,8 @@ const BIG: &[&str] = &[
 const VALS: &[&str] = &[
     "1", "0", "255", "256", "-1", "\"s\"", "\"\"", "\"5\"", "\"-5\"", "\"true\"", "true", "false", "'c'", "'\\u{10FFFF}'", "1.5", "b\"x\"", "b'x'", "c\"z\"",
     "x", "a::b", "::a", "x + 1", "[1, 2]", "[]", "(1, 2)", "|a| a", "f(1)", "\"a::b\"", "\"x +\"", "\"[1, 2\"", "r#\"raw\"#", "\"\\u{0}\"", "..", "1..2",
+    // strings that start like a number in another radix or notation but are not one; raw strings holding numbers
+    "\"0x\"", "\"0xZZ\"", "\"0o8\"", "\"-0b12\"", "\"0b\"", "\"1e\"", "\"0x_\"", "\"0x 1\"", "\"+\"", "\"-\"", "\"1_\"", "\"0x10\"", "r#\"25\"#", "r\"25\"", "r##\"1.5e3\"##",
     "&x", "!x", "-x", "x?", "if a { 1 } else { 2 }", "{ }", "m!()", "S { a: 1 }", "<T as U>::V",
     // every remaining expression kind (each has its own name in "unexpected expression type" errors)
     "async { 1 }", "x.await", "break", "break 'l 1", "const { 1 }", "continue", "for a in b { }", "let a = b", "loop { }", "return x", "unsafe { 1 }",
